@@ -75,13 +75,12 @@ Verdict(e) ==
         IF em <= NClean THEN
              \* "decodes to exactly what was encoded", in order
              IF e.m # em THEN "message differs from the one encoded at this position"
-             \* "a decoder never consumes bytes belonging to the next frame" (nor leaves some of its own)
-             ELSE IF con # EndAt(em) THEN "message emitted but the bytes consumed are not exactly its frame"
+             \* "a decoder never consumes bytes belonging to the next frame"
+             ELSE IF con > EndAt(em) THEN "message emitted and bytes of the next frame consumed"
              ELSE "ok"
         ELSE IF R.bad = 0 THEN "more messages decoded than were encoded"
         \* "corrupt tags ... produce an error rather than ... a silently wrong message"
         ELSE IF R.bk = "tag" /\ em = R.bad THEN "a message was produced for a frame whose tag is not one of the codec"
-        ELSE IF c = 0 THEN "a message was produced without consuming anything"
         ELSE "ok"
     ELSE \* e.r = "none"
         \* never into the next frame while the current one is well formed
